@@ -120,6 +120,8 @@ Common(tr, T, ev) ==
        \A k \in (1..NLw(tr)) \ part : post.vol[k] = vol[k] /\ pc[k] = comp[k] /\ post.hn[k] = hn[k]),
     Cl("C05.sane", F.comp /\ cok /\ ev.cs,
        \A k \in 1..NLw(tr) : CompSane(post.vol[k], pc[k])),
+    \* the per-well query (Labware.get_well_composition) reports what the composition tables report
+    Cl("C05.wellview", F.comp /\ post.haswv, CompOf(post.wview) = pc),
     Cl("C05.normalised", F.norm /\ cok /\ ev.cs,
        \A k \in 1..NLw(tr) : CompNormalisedAll(post.vol[k], pc[k])),
     Cl("C09.wellformed", F.records /\ ev.recs # <<>>,
